@@ -393,3 +393,42 @@ def iteration_requires(g: CFG, head: Node, node: Node, edges) -> bool:
     """Within one iteration of the loop at ``head``: does every path from the start of the body to ``node`` cross one of ``edges``?"""
     starts = [m for m, lab in g.succ[head] if lab == 'T']
     return bool(edges) and node not in reach_cut(g, starts, edges, avoid=[head])
+
+
+def bool_atoms(e: ast.AST, out: Optional[list] = None) -> list:
+    """texts of the atoms of a boolean expression (and/or/not structure only)."""
+    out = [] if out is None else out
+    if isinstance(e, ast.BoolOp):
+        for v in e.values:
+            bool_atoms(v, out)
+    elif isinstance(e, ast.UnaryOp) and isinstance(e.op, ast.Not):
+        bool_atoms(e.operand, out)
+    else:
+        t = text(e)
+        if t not in out:
+            out.append(t)
+    return out
+
+
+def bool_eval(e: ast.AST, env: dict) -> bool:
+    if isinstance(e, ast.BoolOp):
+        vals = [bool_eval(v, env) for v in e.values]
+        return all(vals) if isinstance(e.op, ast.And) else any(vals)
+    if isinstance(e, ast.UnaryOp) and isinstance(e.op, ast.Not):
+        return not bool_eval(e.operand, env)
+    return env[text(e)]
+
+
+def atom_forces(test: ast.AST, atom: str, atom_value: bool, result: bool) -> bool:
+    """Truth table: whenever ``atom`` has ``atom_value`` the test evaluates to ``result`` (for every value of the other atoms)."""
+    import itertools
+    atoms = bool_atoms(test)
+    if atom not in atoms or len(atoms) > 10:
+        return False
+    others = [a for a in atoms if a != atom]
+    for bits in itertools.product((False, True), repeat=len(others)):
+        env = dict(zip(others, bits))
+        env[atom] = atom_value
+        if bool_eval(test, env) != result:
+            return False
+    return True
